@@ -152,6 +152,12 @@ def amp_strategy():
     return st.tuples(st.integers(0, 127), st.integers(0, 39)).map(decode_amp)
 
 
+def size_amp(none=36, sizes=(64, 65, 66, 70, 129, 150)):
+    """0 for most cases, else a population / repetition size (for modules with their own way of scaling up).
+    Sizes sit on and just above powers of two: implementations switch strategy at such round numbers."""
+    return st.integers(0, none + len(sizes) - 1).map(lambda a: 0 if a < none else sizes[a - none])
+
+
 def _repeat(o, times):
     out = []
     for t in range(times):
